@@ -866,7 +866,15 @@ pub fn run(ctx: &mut Ctx) {
                         ret_ids.push(format!("G{}", *id));
                     }
                     A::DelFunc(h) => m.delete_func(FunctionID(hs_run[*h].id)),
-                    A::Rename(h, name) => m.set_fn_name(FunctionID(hs_run[*h].id), name.clone()),
+                    A::Rename(h, name) => {
+                        // a *parsed* import can also be named through the import table's own entry point, which takes the function id
+                        // (its rank among the function imports, deleted ones included, is its id until the next encode)
+                        if hs[*h].imp && hs[*h].id != u32::MAX && name.len() % 2 == 0 {
+                            m.imports.set_fn_name(name.clone(), FunctionID(hs_run[*h].id));
+                        } else {
+                            m.set_fn_name(FunctionID(hs_run[*h].id), name.clone());
+                        }
+                    }
                     A::Replace(b, _, imp_id) => {
                         let b = &builts[*b];
                         let mut fb = FunctionBuilder::new(&[], &[]);
